@@ -24,7 +24,7 @@ pub static DEF: PropDef = PropDef {
     id: "C18",
     level: "exploration",
     engine: "query",
-    rule: "one run = a real Ingester (every write is one flush, published on the legacy and the topic channel) and a real QueryNode; one streaming SQL subscription (legacy query_stream or topic-filtered query_stream_filtered) with a WHERE clause generated from the supported family (comparisons in both operand orders on string / nullable string / integer / float columns, AND, OR, nesting) plus 1..3 raw topic subscriptions with generated filter expressions (All / Shard / Tenant / Metrics / And / Or nests); historical data is ingested before, 4..12 batches (1..6 rows, 1..3 metrics per batch, nulls, either timestamp type, timestamps before and after the merge point but never inside the subscription call's own interval) are flushed after the call returned, interleaved by the scheduler with the subscription's forwarding task; distinct = distinct (WHERE text, topic filters, batch shapes) hash; non-trivial = completed AND the expected live result is non-empty AND at least one row was expected to be filtered out",
+    rule: "one run = a real Ingester (one flush per write, or - flush threshold 4 or 9 rows - several writes per flush; published on the legacy and the topic channel) and a real QueryNode; one streaming SQL subscription (legacy query_stream or topic-filtered query_stream_filtered) with a WHERE clause generated from the supported family (comparisons in both operand orders on string / nullable string / integer / unsigned / float columns and on the timestamp column itself, negative and fractional literals, exact float equality, AND, OR, nesting) plus 1..3 raw topic subscriptions with generated filter expressions (All / Shard / Tenant / Metrics / And / Or nests); historical data is ingested before, 4..12 batches (1..6 rows, 1..3 metrics per batch, nulls, either timestamp type, timestamps before and after the merge point but never inside the subscription call's own interval) are flushed after the call returned, interleaved by the scheduler with the subscription's forwarding task; distinct = distinct (WHERE text, topic filters, batch shapes) hash; non-trivial = completed AND the expected live result is non-empty AND at least one row was expected to be filtered out",
     quick_runs: 1500,
     thorough_runs: 10_000,
     run_cap_ms: 120_000,
@@ -88,8 +88,55 @@ fn gen_tf(depth: u32, shards: &[String]) -> TF {
     }
 }
 
+thread_local! {
+    /// (timestamp column is Int64, base instant of the live rows) for the WHERE generator
+    static WCTX: std::cell::Cell<(bool, i64)> = const { std::cell::Cell::new((true, 0)) };
+}
+
+fn ts_lit(ts_int: bool, v: i64) -> String {
+    if ts_int {
+        format!("{v}")
+    } else {
+        let dt = chrono::DateTime::from_timestamp(v.div_euclid(1_000_000_000), v.rem_euclid(1_000_000_000) as u32).unwrap();
+        format!("TIMESTAMP '{}'", dt.format("%Y-%m-%dT%H:%M:%S%.9f"))
+    }
+}
+
 fn gen_where(depth: u32, feats: &mut Vec<&'static str>) -> String {
     let rev = sim::w_bool(30);
+    // a quarter of the leaves are taken from the forms added later: the timestamp column itself, the unsigned value
+    // column, negative literals, exact float equality
+    if sim::w(4) == 3 {
+        let (ts_int, t_base) = WCTX.with(|c| c.get());
+        return match sim::w(4) {
+            0 => {
+                feats.push("timestamp-predicate");
+                let op = ["<", "<=", ">", ">=", "="][sim::w(5) as usize];
+                let bound = t_base + sim::w(12) as i64 * SEC + [0i64, 1, 2][sim::w(3) as usize];
+                if rev {
+                    feats.push("reversed-operands");
+                    let m = match op { "<" => ">", "<=" => ">=", ">" => "<", ">=" => "<=", o => o };
+                    format!("{} {m} timestamp", ts_lit(ts_int, bound))
+                } else {
+                    format!("timestamp {op} {}", ts_lit(ts_int, bound))
+                }
+            }
+            1 => {
+                feats.push("unsigned-column");
+                let op = ["<", "<=", ">", ">=", "=", "<>"][sim::w(6) as usize];
+                format!("value_u64 {op} {}", sim::w(5))
+            }
+            2 => {
+                feats.push("negative-literal");
+                let op = ["<", "<=", ">", ">=", "=", "<>"][sim::w(6) as usize];
+                if sim::w_bool(50) { format!("value_i64 {op} -{}", 1 + sim::w(3)) } else { format!("value_f64 {op} -0.{}", [25, 5, 75][sim::w(3) as usize]) }
+            }
+            _ => {
+                feats.push("exact-float-equality");
+                format!("value_f64 {} 0.3", ["=", "<>"][sim::w(2) as usize])
+            }
+        };
+    }
     match sim::w(if depth > 2 { 5 } else { 8 }) {
         0 => format!("metric_name = '{}'", ["cpu", "mem", "disk"][sim::w(3) as usize]),
         1 => format!("metric_name <> '{}'", ["cpu", "mem"][sim::w(2) as usize]),
@@ -160,7 +207,9 @@ fn scen(_spec: RunSpec) -> ScenFut {
         let variant = if sim::w_bool(50) { 4 } else { 3 }; // Int64 or Timestamp(ns)
         let mut icfg = IngesterConfig::default();
         icfg.wal.enabled = false;
-        icfg.flush_row_count = 1;
+        // one flush per write, or several writes per flush (a flushed batch then carries the metrics of all its writes)
+        let flush_rows: usize = [1usize, 1, 4, 9][sim::w(4) as usize];
+        icfg.flush_row_count = flush_rows;
         let ing = Arc::new(Ingester::new(icfg, store.clone(), meta.clone(), StorageConfig::default(), MetricSchema::default_metrics()));
         let now0 = sim::wall_ns();
         // row generator for this scenario (values small so the predicates split the rows)
@@ -174,9 +223,9 @@ fn scen(_spec: RunSpec) -> ScenFut {
                         ts: ts + i as i64,
                         metric: metrics[sim::w(metrics.len() as u32) as usize].to_string(),
                         host: [None, Some("a".to_string()), Some("b".to_string()), Some("c".to_string())][sim::w(4) as usize].clone(),
-                        vi: if sim::w(6) == 5 { None } else { Some(sim::w(7) as i64) },
-                        vf: if sim::w(6) == 5 { None } else { Some(sim::w(9) as f64 * 0.25) },
-                        vu: Some(1),
+                        vi: if sim::w(6) == 5 { None } else { Some(sim::w(10) as i64 - 3) },
+                        vf: if sim::w(6) == 5 { None } else { Some([-0.75, -0.5, -0.25, 0.0, 0.25, 0.5, 1.0, 1.25, 2.0, 0.3, 0.1 + 0.2][sim::w(11) as usize]) },
+                        vu: if sim::w(6) == 5 { None } else { Some(sim::w(5) as u64) },
                     }
                 })
                 .collect()
@@ -186,10 +235,15 @@ fn scen(_spec: RunSpec) -> ScenFut {
             let rows = mk_rows(3, now0 - 10 * 60 * SEC, &["cpu", "mem"]);
             ing.write(batch(variant, &rows)).await.expect("historical write");
         }
+        // the historical rows are flushed before anybody subscribes (the token only ends the timer loop; writes and
+        // later shutdown flushes still work)
+        ing.shutdown_token().cancel();
+        ing.run_flush_timer().await;
         let hist_max_id = next_id.load(std::sync::atomic::Ordering::SeqCst) - 1;
         // live batches are planned up front so that shard ids are known to the topic-filter generator
         let n_live = sim::w_range(4, 12);
         let mut feats: Vec<&'static str> = Vec::new();
+        WCTX.with(|c| c.set((variant == 4, now0 + 3600 * SEC)));
         let where_sql = gen_where(0, &mut feats);
         let sql = format!("SELECT * FROM metrics WHERE {where_sql}");
         let use_filtered = sim::w_bool(50);
@@ -231,6 +285,7 @@ fn scen(_spec: RunSpec) -> ScenFut {
         sim::log(format!("CONFIG ts_type={} sub={} where={where_sql} sub_topic={:?} raw_topics={:?}", if variant == 4 { "Int64" } else { "Timestamp" }, if use_filtered { "filtered" } else { "legacy" }, sub_tf, raws.iter().map(|r| format!("{:?}", r.0)).collect::<Vec<_>>()));
         // live flushes
         let mut live: Vec<(Vec<Row>, RecordBatch, String, Vec<String>)> = Vec::new();
+        let mut pending: Vec<Row> = Vec::new();
         for k in 0..n_live {
             let before_merge = sim::w(5) == 4;
             // never inside [t_inv, t_ret]: either clearly before the call or clearly after it
@@ -239,16 +294,30 @@ fn scen(_spec: RunSpec) -> ScenFut {
             let ms: Vec<&str> = ["cpu", "mem", "disk", "net"][..].iter().cloned().skip(sim::w(2) as usize).take(n_metrics).collect();
             let rows = mk_rows(sim::w_range(1, 6), ts, &ms);
             let b = batch(variant, &rows);
-            let shard = shard_of(&rows[0].metric, rows[0].ts);
-            let mut mset: Vec<String> = rows.iter().map(|r| r.metric.clone()).collect();
-            mset.sort();
-            mset.dedup();
             sim::yield_point(0, "before live write").await;
             if let Err(e) = ing.write(b.clone()).await {
                 sim::violation("C18/live-write-failed", e.to_string());
                 return;
             }
-            live.push((rows, b, shard, mset));
+            // what is flushed (and published) is the buffer: every write since the last flush
+            pending.extend(rows);
+            let last = k + 1 == n_live;
+            if last && pending.len() < flush_rows {
+                // the rest goes out with the shutdown flush
+                ing.run_flush_timer().await;
+            }
+            if pending.len() >= flush_rows || last {
+                let rows = std::mem::take(&mut pending);
+                if rows.len() > flush_rows.max(6) {
+                    sim::probe("flush-of-several-writes");
+                }
+                let b = batch(variant, &rows);
+                let shard = shard_of(&rows[0].metric, rows[0].ts);
+                let mut mset: Vec<String> = rows.iter().map(|r| r.metric.clone()).collect();
+                mset.sort();
+                mset.dedup();
+                live.push((rows, b, shard, mset));
+            }
         }
         // let the forwarding tasks drain
         tokio::time::sleep(Duration::from_millis(5)).await;
